@@ -41,7 +41,7 @@ unsafe impl Send for SendCh {}
 unsafe impl Sync for SendCh {}
 
 /// Acquirers: task k wants permits[k], holds the permit for holds[k] clock steps.
-fn limiter_run(ch: &Ch, burst: usize, permits: &[usize], holds: &[u32]) -> ExecResult {
+fn limiter_run(ch: &Ch, burst: usize, permits: &[usize], holds: &[u32], repeat: u32) -> ExecResult {
     let log: Arc<Mutex<Vec<(String, i64, usize, usize)>>> = Default::default(); // (event, time, task, permits)
     let log2 = log.clone();
     let sch = Arc::new(SendCh(ch.clone()));
@@ -59,19 +59,23 @@ fn limiter_run(ch: &Ch, burst: usize, permits: &[usize], holds: &[u32]) -> ExecR
             scope::run!(root, |ctx, s| async move {
                 for k in 0..n {
                     s.spawn(async move {
-                        log.lock().unwrap().push(("arrive".into(), (ctx.now() - t0).whole_milliseconds() as i64, k, permits[k]));
-                        let p = lim.acquire(ctx, permits[k]).await?;
-                        log.lock().unwrap().push(("grant".into(), (ctx.now() - t0).whole_milliseconds() as i64, k, permits[k]));
-                        // hold for holds[k] clock steps
-                        let mut sub = tick.subscribe();
-                        let start = *sub.borrow();
-                        while *sub.borrow() < start + holds[k] {
-                            if sync::changed(ctx, &mut sub).await.is_err() {
-                                break;
+                        // `repeat` acquisitions in a row: later acquisitions consume whatever an earlier
+                        // accounting slip credited
+                        for _round in 0..repeat {
+                            log.lock().unwrap().push(("arrive".into(), (ctx.now() - t0).whole_milliseconds() as i64, k, permits[k]));
+                            let p = lim.acquire(ctx, permits[k]).await?;
+                            log.lock().unwrap().push(("grant".into(), (ctx.now() - t0).whole_milliseconds() as i64, k, permits[k]));
+                            // hold for holds[k] clock steps
+                            let mut sub = tick.subscribe();
+                            let start = *sub.borrow();
+                            while *sub.borrow() < start + holds[k] {
+                                if sync::changed(ctx, &mut sub).await.is_err() {
+                                    break;
+                                }
                             }
+                            drop(p);
+                            log.lock().unwrap().push(("release".into(), (ctx.now() - t0).whole_milliseconds() as i64, k, permits[k]));
                         }
-                        drop(p);
-                        log.lock().unwrap().push(("release".into(), (ctx.now() - t0).whole_milliseconds() as i64, k, permits[k]));
                         anyhow::Ok(())
                     });
                 }
@@ -101,8 +105,8 @@ fn limiter_run(ch: &Ch, burst: usize, permits: &[usize], holds: &[u32]) -> ExecR
     if violation.is_none() && granted != expected {
         violation = Some(format!("waiting callers were not served in arrival order: arrivals {arrivals:?}, grants {granted:?}; events {lg:?}"));
     }
-    if violation.is_none() && (stuck || granted.len() != n) {
-        violation = Some(format!("not every acquire (each <= burst) was granted although the clock kept advancing (granted {granted:?} of {n}, stuck={stuck}); events {lg:?}"));
+    if violation.is_none() && (stuck || granted.len() != n * repeat as usize) {
+        violation = Some(format!("not every acquire (each <= burst) was granted although the clock kept advancing (granted {granted:?} of {n} x {repeat}, stuck={stuck}); events {lg:?}"));
     }
     ExecResult { obs: fx_hash(&format!("{lg:?}")), violation, nontrivial: true, witnesses: vec![("grants_after_waiting", grants.iter().filter(|g| g.0 > 0).count() as u64)] }
 }
@@ -277,12 +281,19 @@ fn rpc_run(ch: &Ch, burst: usize, idle_s: i64, calls: usize) -> ExecResult {
 
 pub fn run(args: &Args) -> Report {
     let mut rep = Report::new("C15", "model_checking");
-    let limiter_cfgs: Vec<(usize, Vec<usize>, Vec<u32>)> = vec![
-        (1, vec![1, 1, 1], vec![0, 1, 0]),
-        (2, vec![1, 2, 1], vec![1, 0, 2]),
-        (2, vec![2, 2], vec![0, 0]),
-        (3, vec![2, 3, 1], vec![2, 0, 0]),
-        (3, vec![1, 1, 1], vec![0, 0, 0]),
+    // (burst, permits per task, hold steps per task, acquisitions per task)
+    let limiter_cfgs: Vec<(usize, Vec<usize>, Vec<u32>, u32)> = vec![
+        (1, vec![1, 1, 1], vec![0, 1, 0], 1),
+        (2, vec![1, 2, 1], vec![1, 0, 2], 1),
+        (2, vec![2, 2], vec![0, 0], 1),
+        (3, vec![2, 3, 1], vec![2, 0, 0], 1),
+        (3, vec![1, 1, 1], vec![0, 0, 0], 1),
+        // a holder that keeps a permit reserved across clock steps next to callers that come back
+        (2, vec![1, 1, 1], vec![2, 0, 0], 3),
+        (3, vec![1, 2], vec![1, 0], 4),
+        // burst large enough that a refresh interval credited twice (3 periods) is not hidden by the
+        // cap, and enough callers to drain it within the window
+        (6, vec![1, 1, 1], vec![1, 0, 0], 6),
     ];
     let rpc_cfgs: Vec<(usize, i64, usize)> = vec![(2, 100, 9), (3, 10, 8), (1, 0, 4)];
     let devs_of = |rp: &serde_json::Value| -> core::Deviations { rp["deviations"].as_array().map(|a| a.iter().map(|p| (p[0].as_u64().unwrap() as u32, p[1].as_u64().unwrap() as u32)).collect()).unwrap_or_default() };
@@ -291,7 +302,7 @@ pub fn run(args: &Args) -> Report {
         let c = &rp["config"];
         let (res, div) = if c["kind"] == "limiter" {
             let l = &limiter_cfgs[c["index"].as_u64().unwrap_or(0) as usize];
-            core::replay_one(&|ch: &Ch| limiter_run(ch, l.0, &l.1, &l.2), devs_of(rp))
+            core::replay_one(&|ch: &Ch| limiter_run(ch, l.0, &l.1, &l.2, l.3), devs_of(rp))
         } else if c["kind"] == "rpc" {
             let l = rpc_cfgs[c["index"].as_u64().unwrap_or(0) as usize];
             core::replay_one(&|ch: &Ch| rpc_run(ch, l.0, l.1, l.2), devs_of(rp))
@@ -314,8 +325,8 @@ pub fn run(args: &Args) -> Report {
     let mut capped = false;
     let mut waited = 0;
     for (i, l) in limiter_cfgs.iter().enumerate() {
-        let cfg = ExploreCfg::new(&format!("limiter[burst {} permits {:?} holds {:?}]", l.0, l.1, l.2), args.tier.pick(3, 5), budget.saturating_sub(t0.elapsed()) / 8);
-        let st = explore(&cfg, |ch| limiter_run(ch, l.0, &l.1, &l.2));
+        let cfg = ExploreCfg::new(&format!("limiter[burst {} permits {:?} holds {:?} x{}]", l.0, l.1, l.2, l.3), args.tier.pick(3, 5), budget.saturating_sub(t0.elapsed()) / 8);
+        let st = explore(&cfg, |ch| limiter_run(ch, l.0, &l.1, &l.2, l.3));
         execs += st.execs;
         points += st.choice_points;
         distinct += st.distinct_obs;
